@@ -15,10 +15,10 @@
 //   W != O, strength(W) == s(O)     -> either of the two, decided by a deterministic rule that cannot
 //                                      let both writers take the instance from each other (checked on
 //                                      two independent readers by c24_tie_no_flip_flop).
-// Ownership hand-over: after the owner UNREGISTERS the instance any matched writer's data is
-// accepted; after a mere DISPOSE the owner is still the strongest live writer, so a weaker writer's
-// data must not be presented; an owner that is no longer matched (deleted / lease expired) must not
-// keep the instance.
+// Ownership hand-over: the owner's UNREGISTER must release the instance (no ownership record is
+// left, so that -- c24_free_instance_taken -- any matched writer's data is accepted next); after a
+// mere DISPOSE the owner is still the strongest live writer and stays the owner; an owner that is no
+// longer matched (deleted / lease expired) must not keep the instance.
 use core::cmp::PartialEq; // (in scope for the trait path of the kani::stub attributes)
 
 use super::support_reader2::*;
@@ -101,8 +101,13 @@ fn fixture_n(owner_is_a: bool, with_record: bool, with_sample: bool) -> Fixture 
 
 #[derive(Clone, Copy, PartialEq, Eq)]
 enum Part {
-    Known,
-    Rest,
+    Known1, // trigger of KF-C24-1
+    Known2, // trigger of KF-C24-2
+    Rest,   // both negated
+}
+
+fn unregisters(k: ChangeKind) -> bool {
+    k == ChangeKind::NotAliveUnregistered || k == ChangeKind::NotAliveDisposedUnregistered
 }
 
 struct StepOut {
@@ -125,8 +130,10 @@ fn c24_step(part: Part) -> StepOut {
     let rcv = any_time();
 
     let dropped_expected = !from_owner && sw <= so; // a tie may be resolved either way; the implementation keeps the owner
-    let trig = dropped_expected && state_update_visible(&f.inst, kind);
-    kani::assume(trig == (part == Part::Known));
+    let trig1 = dropped_expected && state_update_visible(&f.inst, kind);
+    let trig2 = (from_owner || sw > so) && unregisters(kind);
+    kani::assume(trig1 == (part == Part::Known1));
+    kani::assume(trig2 == (part == Part::Known2));
 
     let res = f.r.add_reader_change(guid_of(w), data(), kind, bytes_of(&f.h), None, rcv);
     let c = code(&res);
@@ -143,8 +150,14 @@ fn c24_step(part: Part) -> StepOut {
                 "C24: after accepted data the writer of the change is the owner (a stronger writer takes over)"
             );
         } else {
-            // dispose / unregister by the (new) owner: the record may be kept or released (see the hand-over obligations)
+            // dispose / unregister by the (new) owner: no third writer becomes owner; a mere dispose keeps
+            // the owner (it is still the strongest live writer), an unregister releases the instance
             assert!(nrec == 0 || (owner_after.is_some() && eq16(&owner_after.unwrap(), &w)), "C24: no third writer becomes owner");
+            if unregisters(kind) {
+                assert!(nrec == 0, "C24: the owner's unregister releases the instance (ownership can pass to another writer)");
+            } else {
+                assert!(nrec == 1, "C24: a dispose (without unregister) does not release ownership");
+            }
         }
         assert!(f.r.sample_list.len() == 1, "C24: the accepted change is stored");
     } else if sw < so {
@@ -178,7 +191,7 @@ fn c24_step(part: Part) -> StepOut {
 
 // @check props=C24 tier=quick known=KF-C24-1
 // @desc EXCLUSIVE ownership, one add_reader_change from a non-owner that is not stronger than the owner, restricted to the trigger of KF-C24-1: the dropped change must leave view state, instance state and generation counts untouched (expected to fail: add_reader_change applies InstanceState::update_state before the ownership test, so a weaker writer's dispose / unregister / write changes the instance state although the change is NotAdded)
-// @bounds 1 instance (fully symbolic view/instance state, generation counts 0..10^6), 1 stored sample of the owner, 2 matched writers with strengths over the full i32 range, owner A or B, change from A or B of any of the 5 kinds; unwind 4 (<= 3 list entries + 1)
+// @bounds 1 instance (fully symbolic view/instance state, generation counts 0..10^6), no stored sample, 2 matched writers with strengths over the full i32 range, owner A or B, change from A or B of any of the 5 kinds; unwind 4 (<= 3 list entries + 1)
 // @assume trigger KF-C24-1: the writer is not the owner, its strength is <= the owner's, and update_state(kind) is not the identity on the instance (ALIVE instance + dispose/unregister kind, not-alive instance + ALIVE kind, or NOT_NEW instance + NOT_ALIVE_DISPOSED / NOT_ALIVE_UNREGISTERED)
 // @assume I: exactly one ownership record for the instance and its owner is a matched writer; reader QoS: EXCLUSIVE ownership, KEEP_ALL, unlimited resource limits, BY_RECEPTION_TIMESTAMP, minimum_separation 0
 // @assume stub: InstanceHandle == is replaced by the equivalent branch-free 128-bit comparison (support_reader2::ih_eq; equivalence proved over all inputs by c20_stub_equivalence); [T; N] == / != [U; N] (used for the 16-byte writer guids and publication keys) by the element-wise loop-free support_reader2::arr_eq / arr_ne (equivalence on [u8; 16] proved over all inputs by c24_stub_equivalence)
@@ -189,14 +202,14 @@ fn c24_step(part: Part) -> StepOut {
 #[kani::stub(<[u8; 16] as PartialEq<[u8; 16]>>::eq, super::support_reader2::arr_eq)]
 #[kani::stub(<[u8; 16] as PartialEq<[u8; 16]>>::ne, super::support_reader2::arr_ne)]
 fn c24_step__known() {
-    let o = c24_step(Part::Known);
+    let o = c24_step(Part::Known1);
     kani::cover!(o.code == 1, "a change of a non-owner was dropped");
 }
 
 // @check props=C24 tier=quick
-// @desc EXCLUSIVE ownership, one add_reader_change: a change from the owner or a stronger writer is accepted and (for data) its writer is the owner afterwards; a weaker writer's change is NotAdded; an equally strong writer's change is accepted or dropped; a dropped change leaves stored samples, owner, view/instance state and generation counts untouched; never more than one ownership record -- outside the trigger of KF-C24-1
-// @bounds 1 instance (fully symbolic view/instance state, generation counts 0..10^6), 1 stored sample of the owner, 2 matched writers with strengths over the full i32 range, owner A or B, change from A or B of any of the 5 kinds; unwind 4 (<= 3 list entries + 1)
-// @assume negation of trigger KF-C24-1
+// @desc EXCLUSIVE ownership, one add_reader_change: a change from the owner or a stronger writer is accepted and (for data) its writer is the owner afterwards; a weaker writer's change is NotAdded; an equally strong writer's change is accepted or dropped; a dropped change leaves stored samples, owner, view/instance state and generation counts untouched; an accepted dispose keeps its writer as owner; never more than one ownership record -- outside the triggers of KF-C24-1 and KF-C24-2
+// @bounds 1 instance (fully symbolic view/instance state, generation counts 0..10^6), no stored sample, 2 matched writers with strengths over the full i32 range, owner A or B, change from A or B of any of the 5 kinds; unwind 4 (<= 3 list entries + 1)
+// @assume negation of trigger KF-C24-1 and of trigger KF-C24-2 (no accepted unregister)
 // @assume I: exactly one ownership record for the instance and its owner is a matched writer (the unmatched-owner case is c24_owner_unmatched__known); reader QoS: EXCLUSIVE ownership, KEEP_ALL, unlimited resource limits, BY_RECEPTION_TIMESTAMP, minimum_separation 0
 // @assume stub: InstanceHandle == is replaced by the equivalent branch-free 128-bit comparison (support_reader2::ih_eq; equivalence proved over all inputs by c20_stub_equivalence); [T; N] == / != [U; N] (used for the 16-byte writer guids and publication keys) by the element-wise loop-free support_reader2::arr_eq / arr_ne (equivalence on [u8; 16] proved over all inputs by c24_stub_equivalence)
 // @enc dcps::dcps_domain_participant::data_reader_entity::DataReaderEntity::add_reader_change
@@ -213,7 +226,7 @@ fn c24_step__rest() {
     kani::cover!(o.tie, "equal strengths");
 }
 
-// @check props=C24 tier=quick
+// @check props=C24 tier=thorough
 // @desc ties: two independent readers with the same two equally strong writers; in reader 1 A owns the instance and B writes, in reader 2 B owns it and A writes: the tie rule must not let both writers take the instance from each other (no flip-flop); any deterministic rule is accepted
 // @bounds 2 readers, each 1 instance / 1 stored sample / 2 matched writers with one common symbolic strength (full i32 range), data change (ALIVE); unwind 4
 // @assume I: one ownership record whose owner is matched; reader QoS: EXCLUSIVE ownership, KEEP_ALL, unlimited resource limits
@@ -288,37 +301,11 @@ fn c24_owner_unmatched__known() {
     core::mem::forget(r);
 }
 
-/// Owner A (strictly stronger than B) sends `k1` (a dispose / unregister kind), then B sends data.
-fn handover(k1: ChangeKind, release_expected: bool) {
-    let mut f = fixture_n(true, true, false);
-    kani::assume(f.sa > f.sb);
-    kani::assume(f.inst.st == InstanceStateKind::Alive);
-    let t1 = any_time();
-    let t2 = any_time();
-    let r1 = f.r.add_reader_change(guid_of(f.a), data(), k1, bytes_of(&f.h), None, t1);
-    assert!(code(&r1) == 0, "C24: the owner's dispose / unregister is accepted");
-    let r2 = f.r.add_reader_change(guid_of(f.b), data(), ChangeKind::Alive, bytes_of(&f.h), None, t2);
-    let (_, o) = owner_of(&f.r, &f.h);
-    let st = inst_parts(&f.r, &f.h).map(|p| p.1);
-    if release_expected {
-        assert!(code(&r2) == 0, "C24: after the owner unregistered the instance another writer's data is accepted");
-        assert!(o.is_some() && eq16(&o.unwrap(), &f.b), "C24: ownership passes to the writer whose data was accepted");
-        kani::cover!(st == Some(InstanceStateKind::Alive), "the instance is alive again with the new owner");
-    } else {
-        kani::cover!(code(&r2) == 0, "the weaker writer's data was accepted after the owner's dispose");
-        assert!(code(&r2) == 1, "C24: a dispose does not release ownership: data of a weaker writer is not presented while the owner is alive and registered");
-        assert!(st == Some(InstanceStateKind::NotAliveDisposed), "C24: the instance stays NOT_ALIVE_DISPOSED");
-    }
-    core::mem::forget(r1);
-    core::mem::forget(r2);
-    core::mem::forget(f.r);
-}
-
 // @check props=C24 tier=quick known=KF-C24-2
-// @desc the owner A (strictly stronger than B) DISPOSES the ALIVE instance (it stays registered and alive), then B writes: B's data must be dropped and the instance stays NOT_ALIVE_DISPOSED (expected to fail: add_reader_change removes the ownership record on every not-alive change, so after a mere dispose the weaker writer takes the instance over)
-// @bounds 1 instance, no stored sample, writers A and B with symbolic strengths sA > sB (full i32 range), two chained add_reader_change calls (NOT_ALIVE_DISPOSED from A, ALIVE from B) with symbolic reception times; unwind 4
-// @assume trigger KF-C24-2: the owner's change is NOT_ALIVE_DISPOSED (dispose without unregister)
-// @assume I: one ownership record naming A; both writers matched; reader QoS: EXCLUSIVE ownership, KEEP_ALL, unlimited resource limits
+// @desc the owner (or a stronger writer) UNREGISTERS the instance (NOT_ALIVE_UNREGISTERED or NOT_ALIVE_DISPOSED_UNREGISTERED): the change is accepted and must leave no ownership record, so that ownership can pass to another writer (expected to fail: add_reader_change removes the record at line 419 but re-creates it for the same writer at the end of the function when the change is stored, so every weaker writer's data stays NotAdded after the owner unregistered)
+// @bounds 1 instance (fully symbolic state), no stored sample, 2 matched writers with strengths over the full i32 range, owner A or B, unregister change from the owner or from the stronger of the two; unwind 4
+// @assume trigger KF-C24-2: an accepted change of kind NOT_ALIVE_UNREGISTERED or NOT_ALIVE_DISPOSED_UNREGISTERED (writer is the owner or stronger than the owner)
+// @assume I: exactly one ownership record for the instance and its owner is a matched writer; reader QoS: EXCLUSIVE ownership, KEEP_ALL, unlimited resource limits, BY_RECEPTION_TIMESTAMP, minimum_separation 0
 // @assume stub: InstanceHandle == is replaced by the equivalent branch-free 128-bit comparison (support_reader2::ih_eq; equivalence proved over all inputs by c20_stub_equivalence); [T; N] == / != [U; N] (used for the 16-byte writer guids and publication keys) by the element-wise loop-free support_reader2::arr_eq / arr_ne (equivalence on [u8; 16] proved over all inputs by c24_stub_equivalence)
 // @enc dcps::dcps_domain_participant::data_reader_entity::DataReaderEntity::add_reader_change
 #[kani::proof]
@@ -326,15 +313,15 @@ fn handover(k1: ChangeKind, release_expected: bool) {
 #[kani::stub(<InstanceHandle as PartialEq<InstanceHandle>>::eq, super::support_reader2::ih_eq)]
 #[kani::stub(<[u8; 16] as PartialEq<[u8; 16]>>::eq, super::support_reader2::arr_eq)]
 #[kani::stub(<[u8; 16] as PartialEq<[u8; 16]>>::ne, super::support_reader2::arr_ne)]
-fn c24_dispose_keeps_owner__known() {
-    handover(ChangeKind::NotAliveDisposed, false);
+fn c24_step_unregister__known() {
+    let o = c24_step(Part::Known2);
+    kani::cover!(o.code == 0, "an unregister was accepted");
 }
 
-// @check props=C24 tier=quick
-// @desc ownership passes on unregister: the owner A (strictly stronger than B) unregisters the ALIVE instance (NOT_ALIVE_UNREGISTERED or NOT_ALIVE_DISPOSED_UNREGISTERED), then B writes: B's data is accepted and B is the owner
-// @bounds 1 instance, no stored sample, writers A and B with symbolic strengths sA > sB (full i32 range), two chained add_reader_change calls (unregister kind from A chosen symbolically, ALIVE from B) with symbolic reception times; unwind 4
-// @assume negation of trigger KF-C24-2: the owner's change unregisters the instance
-// @assume I: one ownership record naming A; both writers matched; reader QoS: EXCLUSIVE ownership, KEEP_ALL, unlimited resource limits
+// @check props=C24 tier=thorough
+// @desc an instance without ownership record (never owned, or released by a missed deadline or -- once KF-C24-2 is repaired -- by the owner's unregister): data from any matched writer, whatever its strength, is accepted and that writer is the owner afterwards -- together with 'the owner's unregister releases the instance' (c24_step_unregister__known) this is the hand-over on unregister
+// @bounds 1 instance (fully symbolic state), no stored sample, writers A and B matched with symbolic strengths (full i32 range), no ownership record, one ALIVE change from A or B; unwind 4
+// @assume reader QoS: EXCLUSIVE ownership, KEEP_ALL, unlimited resource limits
 // @assume stub: InstanceHandle == is replaced by the equivalent branch-free 128-bit comparison (support_reader2::ih_eq; equivalence proved over all inputs by c20_stub_equivalence); [T; N] == / != [U; N] (used for the 16-byte writer guids and publication keys) by the element-wise loop-free support_reader2::arr_eq / arr_ne (equivalence on [u8; 16] proved over all inputs by c24_stub_equivalence)
 // @enc dcps::dcps_domain_participant::data_reader_entity::DataReaderEntity::add_reader_change
 #[kani::proof]
@@ -342,9 +329,16 @@ fn c24_dispose_keeps_owner__known() {
 #[kani::stub(<InstanceHandle as PartialEq<InstanceHandle>>::eq, super::support_reader2::ih_eq)]
 #[kani::stub(<[u8; 16] as PartialEq<[u8; 16]>>::eq, super::support_reader2::arr_eq)]
 #[kani::stub(<[u8; 16] as PartialEq<[u8; 16]>>::ne, super::support_reader2::arr_ne)]
-fn c24_unregister_releases__rest() {
-    let k = if kani::any() { ChangeKind::NotAliveUnregistered } else { ChangeKind::NotAliveDisposedUnregistered };
-    handover(k, true);
+fn c24_free_instance_taken() {
+    let mut f = fixture_n(true, false, false);
+    let w = if kani::any() { f.a } else { f.b };
+    let res = f.r.add_reader_change(guid_of(w), data(), ChangeKind::Alive, bytes_of(&f.h), None, any_time());
+    let (nrec, o) = owner_of(&f.r, &f.h);
+    assert!(code(&res) == 0, "C24: data for an instance nobody owns is accepted");
+    assert!(nrec == 1 && o.is_some() && eq16(&o.unwrap(), &w), "C24: the writer whose data was accepted is the owner");
+    kani::cover!(f.sa < f.sb && eq16(&w, &f.a), "the weaker writer took a free instance");
+    core::mem::forget(res);
+    core::mem::forget(f.r);
 }
 
 // @check props=C24 tier=quick
